@@ -1,4 +1,5 @@
 import MLPE.Proofs.PlainDemo
+import MLPE.Proofs.WakeUp
 
 /-!
 # C02 — every run terminates: no deadlock or lost wake-up under any schedule
@@ -20,6 +21,12 @@ timers, every launch order a topological sort may produce, and cancellation of t
   for their own body or timer or are suspended in a collaborator, nobody is cancelled — until `manager.run` leaves;
   then the finishing phase `Fin` (outcome decided, all other tasks cancel-marked, the caller possibly suspended in
   `on_pipeline_complete`).
+
+**All programs, all states — wake-up completeness of a finishing node** (`C02_finished_node_wakes_every_consumer`,
+`C02_returning_switch_wakes_its_consumers`): when the task that ran (or waited for) node `u` leaves `_run_node`, no other
+task remains blocked on the condition of a node that reads `u` — directly, or through a switch node that `u` decides or is
+a case of (`__get_descendants` passes through switch nodes: the historic hangs P4 / P13) —, on `cond['run']`, or on the
+event of `u`; when `_run_switch` returns, nobody remains blocked on the condition of a consumer of the switch.
 
 Switch / one-of / recurrent shapes: the model is tied to the code by lock-step on all of them, the exact deadlock
 verdict of the stepping loop is compared with the model's `stuck` predicate on every explored trace, and the
@@ -78,6 +85,50 @@ theorem C02_plain_launcher_blocked_legitimately (P : Program) (d : DagRef) (hp :
     | done r => simp [Task.isDone, hst] at hnd
     | runnable rv => simp [Task.marked, Task.isDone, hst, hmc] at this
     | blocked w => simp [Task.marked, Task.isDone, hst, hmc] at this
+
+/-! ### All programs: the notifications of a finishing node reach every consumer -/
+
+/-- **no lost wake-up at node completion**: in the state the normal exit of `_run_node` for node `u` leaves behind, no
+*other* task is blocked on `cond[m]` for a node `m` that reads `u` directly (`e.u = u`, `e.v = m`) or reads a switch node
+that `u` feeds (`u → S → m`), nor on `cond['run']`, nor on the event of `u` -/
+theorem C02_finished_node_wakes_every_consumer (c : Ctx) (s : St) (obs : List Obs) (d : DagRef) (u : Node)
+    (below : List Frame) (hn : 2 ≤ c.P.g.nodes.length) (i : Nat) (hi : i ≠ c.t) (tk : Task)
+    (htk : (nodeFinish c s obs d u below).1.tasks[i]? = some tk) :
+    (∀ e ∈ c.P.g.edges, e.u = u → tk.st ≠ .blocked (.cond (.node e.v))) ∧
+    (∀ e1 ∈ c.P.g.edges, ∀ e2 ∈ c.P.g.edges, e1.u = u → e1.v = e2.u → c.P.g.isSwitch e1.v = true →
+      tk.st ≠ .blocked (.cond (.node e2.v))) ∧
+    tk.st ≠ .blocked (.cond .run) ∧ tk.st ≠ .blocked (.event u) := by
+  obtain ⟨h1, h2, h3, _⟩ := nodeFinally_wakes c.P s d u
+  have hsame : ∀ j, j ≠ c.t → (nodeFinish c s obs d u below).1.tasks[j]? = (nodeFinally c.P s d u true).tasks[j]? :=
+    fun j hj => retTo_others c _ obs below .none j hj
+  have hne : c.P.g.nodes ≠ [] := by intro h0; rw [h0] at hn; simp at hn
+  refine ⟨?_, ?_, others_not_blocked hsame h2 i hi tk htk, others_not_blocked hsame h1 i hi tk htk⟩
+  · intro e he hu
+    refine others_not_blocked hsame (h3 e.v ?_) i hi tk htk
+    rw [← hu]; exact mem_desc1_of_edge c.P.g e he hne
+  · intro e1 he1 e2 he2 hu hv hS
+    refine others_not_blocked hsame (h3 e2.v ?_) i hi tk htk
+    rw [← hu]; exact mem_desc1_through_switch c.P.g e1 e2 he1 he2 hv hS hn
+
+/-- the same on the failure path: a collaborator's exception leaving `_run_node` still runs the `finally` -/
+theorem C02_failing_node_wakes_run_and_consumers (c : Ctx) (s : St) (obs : List Obs) (d : DagRef) (u : Node)
+    (below : List Frame) (e : Exc) (hn : 2 ≤ c.P.g.nodes.length) :
+    nodeCbRaise c s obs d u below e = raiseOut c (nodeFinally c.P s d u true) obs below (.exc e) ∧
+    NoneBlocked (nodeFinally c.P s d u true) (.cond .run) ∧
+    ∀ ed ∈ c.P.g.edges, ed.u = u → NoneBlocked (nodeFinally c.P s d u true) (.cond (.node ed.v)) := by
+  obtain ⟨_, h2, h3, _⟩ := nodeFinally_wakes c.P s d u
+  have hne : c.P.g.nodes ≠ [] := by intro h0; rw [h0] at hn; simp at hn
+  refine ⟨rfl, h2, ?_⟩
+  intro ed he hu
+  exact h3 ed.v (by rw [← hu]; exact mem_desc1_of_edge c.P.g ed he hne)
+
+/-- **when `_run_switch` returns, every consumer of the switch is woken** (the selected case may have been computed
+before the switch was resolved: nobody else would notify them — the historic hang P4) -/
+theorem C02_returning_switch_wakes_its_consumers (P : Program) (s : St) (S : Node) (hn : P.g.nodes ≠ []) :
+    ∀ e ∈ P.g.edges, e.u = S → NoneBlocked (notifyAll s ((P.g.desc1 S).map Key.node)) (.cond (.node e.v)) := by
+  intro e he hu
+  refine notifyAll_noneBlocked _ _ _ (List.mem_map.mpr ⟨e.v, ?_, rfl⟩)
+  rw [← hu]; exact mem_desc1_of_edge P.g e he hn
 
 /-! ### Non-vacuity
 
